@@ -594,6 +594,69 @@ func VerifC16Sxhash(i int) {
 	}
 }
 
+// zzC16Punct: bytes without a case variant; in the letter enumeration they
+// stand for "digits and punctuation are left alone" (two separately built
+// texts with the same byte must hash alike).
+const zzC16Punct = "0123456789-_*+/<>=!?.:@[]{}~^&%$#| "
+
+// VerifC16SxhashCase: ENUMERATION of single-letter case pairs.  For every
+// letter a..z (vrt.Choice, so that the native replay cross-checks the codes)
+// the two-byte texts that differ only in the case of that letter — letter in
+// first (pos 0) or last (pos 1) position, next to a fixed lower-case or
+// upper-case companion (other) — as strings (kind 0: equal, equalp and
+// sxhash) and as symbols (kind 1: Symbol.Equal, i.e. equalp, is
+// case-insensitive; sxhash documents (sxhash 'abc) = (sxhash 'aBc)).  Choices
+// 26.. take a digit/punctuation byte unchanged in two separately built texts.
+func VerifC16SxhashCase(pos int, kind int, other int) {
+	scope := slip.NewScope()
+	i := vrt.Choice("c", 26+len(zzC16Punct))
+	var lo, up byte
+	if i < 26 {
+		lo, up = byte('a'+i), byte('A'+i)
+	} else {
+		lo = zzC16Punct[i-26]
+		up = lo
+	}
+	comp := byte('q')
+	if other == 1 {
+		comp = 'Q'
+	}
+	ta, tb := []byte{lo, comp}, []byte{up, comp}
+	if pos == 1 {
+		ta, tb = []byte{comp, lo}, []byte{comp, up}
+	}
+	var x, y slip.Object
+	if kind == 0 {
+		x, y = slip.String(ta), slip.String(tb)
+	} else {
+		x, y = slip.Symbol(ta), slip.Symbol(tb)
+	}
+	hx := zzC16Call(scope, "sxhash", slip.List{x})
+	hy := zzC16Call(scope, "sxhash", slip.List{y})
+	fx, ok1 := hx.obj.(slip.Fixnum)
+	fy, ok2 := hy.obj.(slip.Fixnum)
+	vrt.Assert(hx.class == 0 && hy.class == 0 && ok1 && ok2 && 0 <= fx && 0 <= fy, "sxhash is not a non-negative fixnum")
+	vrt.Reach("hashed")
+	vrt.Note("case", pos, kind, other, i, int64(fx), int64(fy))
+	eqv := zzC16Pred(scope, "equal", x, y)
+	eqp := zzC16Pred(scope, "equalp", x, y)
+	vrt.Assert(zzC16IsBool(eqv) && zzC16IsBool(eqp), "equal/equalp does not return a boolean")
+	vrt.Assert(!eqv.val || eqp.val, "equal but not equalp")
+	if eqv.val {
+		vrt.Reach("equal-pair")
+		vrt.Assert(fx == fy, "equal texts differing in the case of one letter have different sxhash")
+	}
+	if kind == 1 && slip.ObjectEqual(x, y) {
+		vrt.Reach("same-symbol")
+		vrt.Assert(eqp.val, "symbols that are Equal are not equalp")
+		vrt.Assert(fx == fy, "symbols differing only in the case of one letter have different sxhash")
+	}
+	if kind == 0 {
+		// slip documents string comparison by equal as case-insensitive
+		vrt.Assert(eqv.val, "strings differing only in the case of one ASCII letter are not equal")
+	}
+}
+
 // ---- (iii) hash table = finite map ----
 
 type zzC16Entry struct {
@@ -761,10 +824,12 @@ func zzC16Unhashable(x slip.Object) bool {
 
 // VerifC16Hash: a history of up to four operations on a fresh table against a
 // reference association list.  Keys A (kind ka) and B (kind kb) are built
-// separately; op codes: 0 none, 1/2 (setf (gethash A/B h) v), 3/4 (gethash A/B
-// h), 5/6 (remhash A/B h), 7 (clrhash h), 8 (hash-table-count h).  After every
-// operation its result is compared with the model, and at the end count and
-// both lookups are compared.
+// separately; op codes: 0 none, 1/2 (setf (gethash A/B h) v), 9/10 (setf
+// (gethash A/B h) nil), 3/4 (gethash A/B h), 5/6 (remhash A/B h), 7 (clrhash
+// h), 8 (hash-table-count h).  Every operation's own result is compared with
+// the model, and after every operation the whole observable state is:
+// hash-table-count, both values of (gethash A h) and (gethash B h), and the
+// set of key/value pairs maphash visits.
 func VerifC16Hash(ka int, kb int, o1 int, o2 int, o3 int, o4 int) {
 	scope := slip.NewScope()
 	keys := []slip.Object{zzC16Obj(ka, "a"), zzC16Obj(kb, "b")}
@@ -797,12 +862,33 @@ func VerifC16Hash(ka int, kb int, o1 int, o2 int, o3 int, o4 int) {
 		vrt.Assert(r.class == 0 && isF, "hash-table-count does not return a fixnum")
 		vrt.Assert(int(n) == len(m.ents), "hash-table-count is not the number of distinct keys")
 	}
+	// maphash visits exactly the model's entries (as a set of key/value pairs)
+	lam := slip.ReadString("(lambda (k v) (setq zz-c16-acc (cons v (cons k zz-c16-acc))))", scope).Eval(scope, nil)
+	visit := func() {
+		scope.Let(slip.Symbol("zz-c16-acc"), nil)
+		r := zzC16Call(scope, "maphash", slip.List{lam, h})
+		vrt.Assert(r.class == 0, "maphash does not return")
+		acc, _ := scope.Get(slip.Symbol("zz-c16-acc")).(slip.List)
+		vrt.Assert(len(acc) == 2*len(m.ents), "maphash does not visit one entry per distinct key")
+		for i := range m.ents {
+			seen := false
+			for j := 0; j+1 < len(acc); j += 2 {
+				if zzC16Same(acc[j], m.ents[i].val) && zzC16Same(acc[j+1], m.ents[i].key) {
+					seen = true
+				}
+			}
+			vrt.Assert(seen, "maphash does not visit an entry of the model")
+		}
+	}
 	for _, op := range []int{o1, o2, o3, o4} {
 		step++
 		switch op {
-		case 1, 2:
-			id := op - 1
-			v := slip.Fixnum(100 + step)
+		case 1, 2, 9, 10:
+			id := (op - 1) % 8
+			var v slip.Object = slip.Fixnum(100 + step)
+			if op >= 9 {
+				v = nil // a stored NIL is an entry like any other
+			}
 			fi := slip.MustFindFunc("gethash")
 			cls := 0
 			func() {
@@ -841,27 +927,19 @@ func VerifC16Hash(ka int, kb int, o1 int, o2 int, o3 int, o4 int) {
 		case 8:
 			count()
 		}
+		if op != 0 {
+			// the whole observable state after every operation
+			count()
+			check(0)
+			check(1)
+			visit()
+		}
 	}
 	vrt.Reach("history")
 	count()
 	check(0)
 	check(1)
-	// maphash visits exactly the model's entries (as a set)
-	scope.Let(slip.Symbol("zz-c16-acc"), nil)
-	lam := slip.ReadString("(lambda (k v) (setq zz-c16-acc (cons v (cons k zz-c16-acc))))", scope).Eval(scope, nil)
-	r := zzC16Call(scope, "maphash", slip.List{lam, h})
-	vrt.Assert(r.class == 0, "maphash does not return")
-	acc, _ := scope.Get(slip.Symbol("zz-c16-acc")).(slip.List)
-	vrt.Assert(len(acc) == 2*len(m.ents), "maphash does not visit one entry per distinct key")
-	for i := range m.ents {
-		seen := false
-		for j := 0; j+1 < len(acc); j += 2 {
-			if zzC16Same(acc[j], m.ents[i].val) && zzC16Same(acc[j+1], m.ents[i].key) {
-				seen = true
-			}
-		}
-		vrt.Assert(seen, "maphash does not visit an entry of the model")
-	}
+	visit()
 	vrt.Reach("maphash")
 }
 
